@@ -468,7 +468,13 @@ func (lex *Lexer) Lex() *token.Token {
             lnum | hnum | bnum       => {lex.setTokenPosition(tkn); tok = token.T_NUM_STRING; fbreak;};
             '$' varname              => {lex.setTokenPosition(tkn); tok = token.T_VARIABLE; fbreak;};
             varname                  => {lex.setTokenPosition(tkn); tok = token.T_STRING; fbreak;};
-            whitespace_line | [\\'#] => {lex.setTokenPosition(tkn); tok = token.T_ENCAPSED_AND_WHITESPACE; lex.ret(2); goto _out;};
+            whitespace_line | [\\'#] => {
+                lex.setTokenPosition(tkn); tok = token.T_ENCAPSED_AND_WHITESPACE; lex.ret(2);
+                if lex.cs == lexer_en_heredoc && lex.isHeredocEnd(lex.p) {
+                    lex.cs = lexer_en_heredoc_end
+                }
+                goto _out;
+            };
             operators > (svi, 1)     => {lex.setTokenPosition(tkn); tok = token.ID(int(lex.data[lex.ts])); fbreak;};
             ']'       > (svi, 2)     => {lex.setTokenPosition(tkn); tok = token.ID(int(']')); lex.ret(2); goto _out;};
             any_line => {
